@@ -119,3 +119,24 @@ Proof.
 Qed.
 
 End EP.
+
+(* the default options give the plain element() *)
+Section EPopt.
+Context {T : Type} `{Num T}.
+Variable v : variants.
+Lemma tsp_convert_ord_none (t : tsp T) i : tsp_convert_ord None t i = tsp_convert t i.
+Proof. unfold tsp_convert_ord. destruct (tsp_convert t i); reflexivity. Qed.
+
+Theorem element_opt_default (a : obj T) i : element_opt v None true a i = element v a i.
+Proof.
+  destruct a; try reflexivity.
+  - cbn [element_opt element no_order]. rewrite andb_true_r, tsp_convert_ord_none. reflexivity.
+  - cbn [element_opt element no_order]. rewrite andb_true_r.
+    destruct (is_member v _ i); [reflexivity|].
+    destruct i as [x| | |]; try apply tsp_convert_ord_none.
+    destruct x; try apply tsp_convert_ord_none. rewrite andb_true_r.
+    destruct (tri_eqb _ _); [reflexivity | apply tsp_convert_ord_none].
+  - unfold element_opt. rewrite element_prod. destruct (is_member v _ i); [reflexivity|].
+    destruct (items_of i); [|reflexivity]. destruct (negb _); reflexivity.
+Qed.
+End EPopt.
